@@ -1268,11 +1268,18 @@ func (g *G) genFor() E {
 	}
 	h := head.E()
 	var s sb
-	s.both("{\n")
+	// a wrapper block only where a counter is declared in front of the loop: otherwise the loop's own scope is
+	// directly inside the enclosing block (a variable leaking out of it would be visible there)
+	wrap := !strings.HasPrefix(h.p, "§L§") || tail.p != ""
+	if wrap {
+		s.both("{\n")
+	}
 	s.pc(strings.Replace(h.p, "§L§", l, 1), strings.Replace(h.c, "§L§", l, 1))
 	s.add(body.E())
 	s.add(tail)
-	s.both("}\n")
+	if wrap {
+		s.both("}\n")
+	}
 	return s.E()
 }
 
@@ -1391,7 +1398,7 @@ func (g *G) genSwitch() E {
 				t = g.use(v)
 			}
 		}
-		if g.r.Chance(1, 6) {
+		if g.r.Chance(1, 3) {
 			n := g.scopedName("t")
 			g.f("stmt:switch-init")
 			head = E{fmt.Sprintf("switch %s := %s; %s {\n", n, t.p, n), fmt.Sprintf("switch %s := %s; %s {\n", n, t.c, n), 0, false}
@@ -1469,7 +1476,10 @@ func (g *G) genSwitch() E {
 	}
 	g.loops = g.loops[:len(g.loops)-1]
 	tail := g.pop()
-	s.both("{\n")
+	wrap := tail.p != ""
+	if wrap {
+		s.both("{\n")
+	}
 	if *used {
 		s.both("%s:\n", lbl)
 		g.f("stmt:labeled-switch")
@@ -1478,7 +1488,9 @@ func (g *G) genSwitch() E {
 	s.add(body.E())
 	s.both("}\n")
 	s.add(tail)
-	s.both("}\n")
+	if wrap {
+		s.both("}\n")
+	}
 	return s.E()
 }
 
